@@ -184,6 +184,8 @@ type tr struct {
 	destParam string            // name of the interface{} parameter stores go through ("" if none)
 	storeVar  string            // Gallina variable holding what has been stored through the destination
 	dropped   map[string]bool   // parameters with no Gallina counterpart (only allowed inside error constructors)
+	destPrec  map[string]string // *big.Float destination variable -> Gallina variable holding the precision it had on entry
+	destAcc   map[string]string // *big.Float destination variable -> Gallina variable holding its Acc() (only after a SetFloat64 on it)
 	usesO     bool              // the body calls an oracle
 	ext       bool              // extended subset (numeric unit); the original subset is unchanged when false
 }
@@ -729,7 +731,16 @@ func (t *tr) args(xs []ast.Expr) string {
 				continue // dropped on both sides (definition and call), e.g. *time.Location
 			}
 			if id, ok := a.(*ast.Ident); ok && t.destNil[id.Name] {
-				continue // a typed destination pointer handed to a storing helper: what is stored comes back in the result
+				// a typed destination pointer handed to a storing helper: what is stored comes back in the result;
+				// of a *big.Float destination the helper receives the precision it was configured with
+				if kindOf(t.typeOf(a)).k == "bigfloat" {
+					pv, ok := t.destPrec[id.Name]
+					if !ok {
+						t.fail(a, "*big.Float destination %s of unknown precision", id.Name)
+					}
+					b.WriteString(" " + pv)
+				}
+				continue
 			}
 			if k := kindOf(t.typeOf(a)); k.k == "iface" {
 				id, ok := a.(*ast.Ident)
@@ -828,6 +839,17 @@ func (t *tr) call(x *ast.CallExpr) string {
 			if t.ext && recvK.k == "bigfloat" && m.Name() == "Float64" {
 				t.usesO = true
 				return "(o_BigFloat_Float64 O " + t.expr(f.X) + ")"
+			}
+			if t.ext && recvK.k == "bigfloat" && m.Name() == "Acc" && len(x.Args) == 0 {
+				// Acc(): the accuracy of the most recent operation on the receiver. Only understood on a destination whose most
+				// recent operation (on this path, in this function) is a SetFloat64 the translator has just modelled.
+				if id, ok := f.X.(*ast.Ident); ok && t.destNil[id.Name] {
+					if av, ok := t.destAcc[id.Name]; ok {
+						t.needNonNil(x, id.Name)
+						return av
+					}
+				}
+				t.fail(x, "big.Float Acc() without a dominating SetFloat64 on the same destination")
 			}
 			if t.ext && recvK.k == "time" {
 				switch m.Name() {
@@ -1582,8 +1604,22 @@ func (t *tr) blockExt(stmts []ast.Stmt, rest func() string) (string, bool) {
 					}
 				case "SetFloat64":
 					if godst, _ := godstCtor(t.typeOf(f.X)); godst == "D_pbigfloat" {
+						// rounds to the precision the destination was given before the call; value and accuracy come from the oracle
+						pv, ok := t.destPrec[id.Name]
+						if !ok {
+							t.fail(x, "SetFloat64 on a *big.Float destination of unknown precision")
+						}
+						if _, again := t.destAcc[id.Name]; again {
+							t.fail(x, "second SetFloat64 on the same destination (its precision is no longer the one on entry)")
+						}
 						t.usesO = true
-						return let(t.storeVar, "(Some (G_bigfloat (o_BigFloat_SetFloat64 O "+t.expr(c.Args[0])+")))"), true
+						valV, accV := coqIdent(id.Name)+"_val_", coqIdent(id.Name)+"_acc_"
+						arg := t.expr(c.Args[0])
+						t.destAcc[id.Name] = accV
+						body := next()
+						delete(t.destAcc, id.Name)
+						return "(let '(" + valV + ", " + accV + ") := (o_BigFloat_SetFloat64 O " + pv + " " + arg + ") in\n  " +
+							"(let " + t.storeVar + " := (Some (G_bigfloat " + valV + ")) in\n  " + body + "))", true
 					}
 				}
 			}
@@ -1865,10 +1901,31 @@ func (t *tr) typeSwitch(x *ast.TypeSwitchStmt, stmts []ast.Stmt, rest func() str
 				t.fail(cc, "destination type %s has no constructor in godst", t.typeOf(cc.List[0]))
 			}
 			pattern = ctor + " " + pv
+			if ctor == "D_pbigfloat" {
+				// the constructor also carries the precision the destination has on entry
+				if bind != "" {
+					pattern += " " + coqIdent(bind) + "_prec"
+				} else {
+					pattern += " _"
+				}
+			}
 			if bind != "" {
 				old := t.destNil[bind]
 				t.destNil[bind] = true
-				undo = func() { t.destNil[bind] = old }
+				oldP, hadP := t.destPrec[bind]
+				if ctor == "D_pbigfloat" {
+					t.destPrec[bind] = coqIdent(bind) + "_prec"
+				} else {
+					delete(t.destPrec, bind)
+				}
+				undo = func() {
+					t.destNil[bind] = old
+					if hadP {
+						t.destPrec[bind] = oldP
+					} else {
+						delete(t.destPrec, bind)
+					}
+				}
 			}
 		default:
 			ty := t.typeOf(cc.List[0])
@@ -1979,7 +2036,8 @@ func translateFuncExt(p *pkgInfo, fd *ast.FuncDecl) coqDef {
 	obj := p.info.Defs[fd.Name].(*types.Func)
 	sig := obj.Type().(*types.Signature)
 	t := &tr{p: p, deps: map[string]bool{}, fn: fd, sig: sig, ext: true,
-		optVars: map[string]bool{}, nonNil: map[string]int{}, nilAlias: map[string]string{}, destNil: map[string]bool{}, dropped: map[string]bool{}}
+		optVars: map[string]bool{}, nonNil: map[string]int{}, nilAlias: map[string]string{}, destNil: map[string]bool{}, dropped: map[string]bool{},
+		destPrec: map[string]string{}, destAcc: map[string]string{}}
 	name := coqIdent(fd.Name.Name)
 	var params []string
 	if sig.Recv() != nil {
@@ -2006,9 +2064,14 @@ func translateFuncExt(p *pkgInfo, fd *ast.FuncDecl) coqDef {
 		case k.k == "iface" && pn == t.destParam:
 			params = append(params, "("+coqIdent(pn)+" : godst)")
 		case pn == t.destParam:
-			// typed destination pointer, non-nil by the callers' guard: only what is stored is modelled
+			// typed destination pointer, non-nil by the callers' guard: only what is stored is modelled; of a *big.Float the
+			// precision it has on entry is a parameter (SetFloat64 rounds to it)
 			t.destNil[pn] = true
 			t.nonNil[pn] = 1
+			if k.k == "bigfloat" {
+				t.destPrec[pn] = coqIdent(pn) + "_prec"
+				params = append(params, "("+coqIdent(pn)+"_prec : Z)")
+			}
 		case k.k == "ptr":
 			t.fail(fd, "pointer parameter %s", pn)
 		default:
